@@ -673,6 +673,16 @@ func (w *cwWorld) qiSpend(height uint64) *types.Transaction {
 // ---- one step ----
 
 func (w *cwWorld) step() (*cwStep, error) {
+	st, err := w.build()
+	if err != nil {
+		return nil, err
+	}
+	return st, w.commit(st)
+}
+
+// build lets the users act, then has the node's worker assemble the next block, which the harness seals; nothing
+// is appended yet
+func (w *cwWorld) build() (*cwStep, error) {
 	rc := w.rc
 	w.userActivity()
 	n := w.node
@@ -704,8 +714,14 @@ func (w *cwWorld) step() (*cwStep, error) {
 	if want == common.REGION_CTX {
 		st.inbound = w.synthInbound(blk.NumberU64(common.ZONE_CTX))
 	}
+	return &st, nil
+}
+
+// commit appends a built block (or an equally valid variant of it) to the node and updates the generator's view
+func (w *cwWorld) commit(st *cwStep) error {
+	n, blk := w.node, st.blk
 	if err := n.appendBlock(blk, st.inbound); err != nil {
-		return &st, err
+		return err
 	}
 	// with a single zone every outbound ETX (coinbase, conversion, lockup redemption, unwrap) is addressed to this
 	// zone again and returns through the dominant chains
@@ -721,9 +737,9 @@ func (w *cwWorld) step() (*cwStep, error) {
 			}
 		}
 	}
-	w.steps = append(w.steps, st)
+	w.steps = append(w.steps, *st)
 	w.waitPool()
-	return &st, nil
+	return nil
 }
 
 // waitPool lets the pool's asynchronous head reset finish (it is driven by the chain head feed)
